@@ -608,6 +608,20 @@ func (sc *scenario) judge(sp spec, fired map[string]int) {
 				map[string]any{"event": u, "logical_id": L, "stream": sp.stream})
 		}
 	}
+	// every peer of these scenarios is honest (late, slow, duplicated or cancelled traffic, never
+	// malformed): the message layer must not have banned anybody - a banned responder cannot deliver
+	// the replies of the attempts that are still waiting
+	for i, n := range sc.nodes {
+		if n == nil {
+			continue
+		}
+		if banned := n.Conn.VerifPeer().VerifGater().ListBanned(); len(banned) > 0 {
+			k.Violation("lost-response:honest-peer-banned-by-the-message-layer", "a node banned a peer although every peer only sent well-formed (if late, duplicated or cancelled) traffic; replies of attempts still waiting cannot arrive any more",
+				map[string]any{"node": i, "banned": fmt.Sprint(banned), "stream": sp.stream})
+			break
+		}
+		k.Count("ban_lists_checked_empty", 1)
+	}
 	if sc.badPayload > 0 {
 		k.Count("handler_bad_payload", int(sc.badPayload))
 	}
